@@ -81,7 +81,8 @@ fn interp_obs<I: LangInterpreter>(lang: &I, words: &[&str]) -> String {
 
 fn annotate_obs<I: LangInterpreter>(lang: &I, words: &[&str]) -> String {
     let r = guard(|| {
-        let mut toks: Vec<HTok> = words.iter().enumerate().map(|(i, w)| HTok::new(i, w)).collect();
+        // a leading '!' pre-sets the mark (a caller may annotate a vector twice, or mark tokens itself)
+        let mut toks: Vec<HTok> = words.iter().enumerate().map(|(i, w)| if w.len() > 1 && w.starts_with('!') { HTok::decorated(i, w) } else { HTok::new(i, w) }).collect();
         lang.basic_annotate(&mut toks);
         toks.iter().map(|t| if t.nan { '1' } else { '0' }).collect::<String>()
     });
@@ -173,6 +174,10 @@ pub fn run(tier: Tier) -> i32 {
             }
         };
         let kk = tier.pick(4usize, 5);
+        // the same words with the mark already set
+        let mut amb = amb;
+        let marked: Vec<String> = amb.iter().filter(|w| w.chars().any(|c| c.is_alphabetic())).take(4).map(|w| format!("!{w}")).collect();
+        amb.extend(marked);
         let b = with_concrete!(l, conc => {
             explore::all_sequences(&amb, kk, |syms, acc| {
                 acc.states += 1;
